@@ -1,14 +1,633 @@
 package main
 
-import "golang.org/x/tools/go/ssa"
+// merge.go - state merging: if-conversion of symbolic branches whose two sides rejoin
+// (at the immediate post-dominator block, or at the function's return for functions with
+// scalar results).  Each side is executed under a write log; logs, phi values and return
+// values are then combined with ite.  Anything that cannot be merged soundly aborts the
+// attempt (mergeFail) and the branch is explored by forking instead.
+
+import (
+	"fmt"
+	"go/types"
+	"os"
+	"sync"
+
+	"golang.org/x/tools/go/ssa"
+)
 
 type mergeFail struct{ why string }
 
-func (in *Interp) tryMergeIf(g *Goroutine, fr *Frame, x *ssa.If, c *Term) bool { return false }
+var debugMerge = os.Getenv("SYMGO_DEBUGMERGE") != ""
 
 type TimerObj struct {
 	armed    bool
 	deadline *Term
 	fn       *FuncV
 	fired    int
+}
+
+type retCapture struct {
+	fr   *Frame
+	val  Value
+	done bool
+}
+
+var pdomCache sync.Map // *ssa.Function -> []int (ipdom block index, -1 = exit)
+
+func ipdoms(fn *ssa.Function) []int {
+	if v, ok := pdomCache.Load(fn); ok {
+		return v.([]int)
+	}
+	n := len(fn.Blocks)
+	exit := n
+	// pdom sets as bitsets over n+1 nodes
+	words := (n + 1 + 63) / 64
+	full := make([]uint64, words)
+	for i := 0; i <= n; i++ {
+		full[i/64] |= 1 << uint(i%64)
+	}
+	pd := make([][]uint64, n+1)
+	for i := 0; i <= n; i++ {
+		pd[i] = append([]uint64(nil), full...)
+	}
+	pd[exit] = make([]uint64, words)
+	pd[exit][exit/64] |= 1 << uint(exit%64)
+	succs := func(i int) []int {
+		b := fn.Blocks[i]
+		if len(b.Succs) == 0 {
+			return []int{exit}
+		}
+		r := make([]int, len(b.Succs))
+		for k, s := range b.Succs {
+			r[k] = s.Index
+		}
+		return r
+	}
+	changed := true
+	for changed {
+		changed = false
+		for i := n - 1; i >= 0; i-- {
+			nw := append([]uint64(nil), full...)
+			for _, s := range succs(i) {
+				for w := range nw {
+					nw[w] &= pd[s][w]
+				}
+			}
+			nw[i/64] |= 1 << uint(i%64)
+			same := true
+			for w := range nw {
+				if nw[w] != pd[i][w] {
+					same = false
+				}
+			}
+			if !same {
+				pd[i] = nw
+				changed = true
+			}
+		}
+	}
+	has := func(set []uint64, k int) bool { return set[k/64]&(1<<uint(k%64)) != 0 }
+	count := func(set []uint64) int {
+		c := 0
+		for k := 0; k <= n; k++ {
+			if has(set, k) {
+				c++
+			}
+		}
+		return c
+	}
+	res := make([]int, n)
+	for i := 0; i < n; i++ {
+		// ipdom = the strict post-dominator with the largest pdom set (closest)
+		best, bestc := -1, -1
+		for k := 0; k <= n; k++ {
+			if k == i || !has(pd[i], k) {
+				continue
+			}
+			c := count(pd[k])
+			if c > bestc {
+				best, bestc = k, c
+			}
+		}
+		if best == exit {
+			best = -1
+		}
+		res[i] = best
+	}
+	pdomCache.Store(fn, res)
+	return res
+}
+
+func scalarResults(fn *ssa.Function) bool {
+	r := fn.Signature.Results()
+	if r.Len() == 0 {
+		return false
+	}
+	for i := 0; i < r.Len(); i++ {
+		t := r.At(i).Type()
+		if _, _, ok := intWidth(t); ok {
+			continue
+		}
+		if isBool(t) {
+			continue
+		}
+		return false
+	}
+	return true
+}
+
+// regionOK statically rejects regions containing instructions that can never be merged.
+func regionOK(fn *ssa.Function, from *ssa.BasicBlock, join *ssa.BasicBlock, seen map[*ssa.BasicBlock]bool, budget *int) bool {
+	if from == join || seen[from] {
+		return true
+	}
+	seen[from] = true
+	*budget -= len(from.Instrs)
+	if *budget < 0 {
+		return false
+	}
+	for _, i := range from.Instrs {
+		switch x := i.(type) {
+		case *ssa.Go, *ssa.Send, *ssa.Select, *ssa.Defer, *ssa.Panic, *ssa.RunDefers:
+			return false
+		case *ssa.Return:
+			if join != nil {
+				return false
+			}
+		case *ssa.UnOp:
+			if x.Op.String() == "<-" {
+				return false
+			}
+		}
+	}
+	for _, s := range from.Succs {
+		if !regionOK(fn, s, join, seen, budget) {
+			return false
+		}
+	}
+	return true
+}
+
+func (in *Interp) tryMergeIf(g *Goroutine, fr *Frame, x *ssa.If, c *Term) (merged bool) {
+	if in.inSync > 0 && in.mergeDepth == 0 {
+		// inside callSync we may still merge; fine
+	}
+	if in.mergeDepth > 6 {
+		return false
+	}
+	if in.mergeDepth == 0 {
+		if idx := len(in.trace); idx < len(in.prefix) && in.prefix[idx].Kind == "mf" {
+			in.trace = append(in.trace, in.prefix[idx])
+			return false
+		}
+	}
+	fn := fr.fn
+	ip := ipdoms(fn)[fr.block.Index]
+	var join *ssa.BasicBlock
+	if ip >= 0 {
+		join = fn.Blocks[ip]
+	} else if !scalarResults(fn) || len(fr.defers) > 0 || len(fn.FreeVars) > 0 {
+		return false
+	}
+	budget := 400
+	seen := map[*ssa.BasicBlock]bool{}
+	if !regionOK(fn, fr.block.Succs[0], join, seen, &budget) || !regionOK(fn, fr.block.Succs[1], join, seen, &budget) {
+		return false
+	}
+	// save state for rollback
+	depth := len(g.stack)
+	savedBlock, savedPrev, savedPC := fr.block, fr.prev, fr.pc
+	savedEnv := make(map[ssa.Value]Value, len(fr.env))
+	for k, v := range fr.env {
+		savedEnv[k] = v
+	}
+	savedLoop := map[*ssa.BasicBlock]int{}
+	for k, v := range fr.loopCnt {
+		savedLoop[k] = v
+	}
+	wdepth := len(in.wlog)
+	cdepth := len(in.captures)
+	savedSteps := in.steps
+	in.mergeDepth++
+	defer func() {
+		in.mergeDepth--
+		if r := recover(); r != nil {
+			if ee, isE := r.(*EngineError); isE && in.mergeDepth == 0 {
+				r = mergeFail{"engine: " + ee.Msg}
+			}
+			mf, ok := r.(mergeFail)
+			if !ok {
+				panic(r)
+			}
+			if debugMerge {
+				fmt.Fprintf(os.Stderr, "mergeFail depth=%d in %s block %d join %d: %s\n", in.mergeDepth, fr.fn, savedBlock.Index, ip, mf.why)
+			}
+			// rollback
+			in.wlog = in.wlog[:wdepth]
+			in.captures = in.captures[:cdepth]
+			g.stack = g.stack[:depth]
+			fr.block, fr.prev, fr.pc = savedBlock, savedPrev, savedPC
+			fr.loopCnt = savedLoop
+			fr.env = savedEnv
+			fr.mode = 0
+			g.panicking = nil
+			in.steps = savedSteps
+			in.mergeFails++
+			merged = false
+			if in.mergeDepth == 0 {
+				in.trace = append(in.trace, Decision{Kind: "mf", Forced: true, N: 1})
+			}
+		}
+	}()
+
+	type sideRes struct {
+		log  map[*Cell]Value
+		phis []Value
+		ret  Value
+		env  map[ssa.Value]Value
+	}
+	var phis []*ssa.Phi
+	if join != nil {
+		for _, i := range join.Instrs {
+			p, ok := i.(*ssa.Phi)
+			if !ok {
+				break
+			}
+			phis = append(phis, p)
+		}
+	}
+	runSide := func(k int) sideRes {
+		log := map[*Cell]Value{}
+		in.wlog = append(in.wlog, log)
+		var cap *retCapture
+		if join == nil {
+			cap = &retCapture{fr: fr}
+			in.captures = append(in.captures, cap)
+		}
+		fr.block, fr.prev, fr.pc = savedBlock, savedPrev, savedPC
+		fr.env = make(map[ssa.Value]Value, len(savedEnv)+16)
+		for kk, v := range savedEnv {
+			fr.env[kk] = v
+		}
+		fr.loopCnt = map[*ssa.BasicBlock]int{}
+		for kk, v := range savedLoop {
+			fr.loopCnt[kk] = v
+		}
+		in.jump(fr, savedBlock.Succs[k])
+		start := in.steps
+		for {
+			if join != nil && len(g.stack) == depth && fr.block == join && fr.pc == len(phis) && fr.prev != nil && in.arrived(fr, join) {
+				break
+			}
+			if cap != nil && cap.done {
+				break
+			}
+			if len(g.stack) < depth {
+				panic(mergeFail{"frame returned inside region"})
+			}
+			if in.steps-start > 20000 {
+				panic(mergeFail{"region too long"})
+			}
+			st := in.step(g)
+			if st != stOK {
+				panic(mergeFail{"blocking op in region"})
+			}
+			if g.panicking != nil {
+				panic(mergeFail{"panic in region"})
+			}
+		}
+		in.wlog = in.wlog[:len(in.wlog)-1]
+		res := sideRes{log: log, env: fr.env}
+		if cap != nil {
+			in.captures = in.captures[:len(in.captures)-1]
+			res.ret = cap.val
+		} else {
+			for _, p := range phis {
+				res.phis = append(res.phis, fr.env[p])
+			}
+		}
+		return res
+	}
+	a := runSide(0)
+	b := runSide(1)
+	// merge memory
+	cells := map[*Cell]bool{}
+	for cl := range a.log {
+		cells[cl] = true
+	}
+	for cl := range b.log {
+		cells[cl] = true
+	}
+	type upd struct {
+		c *Cell
+		v Value
+	}
+	var upds []upd
+	for cl := range cells {
+		va, oka := a.log[cl]
+		vb, okb := b.log[cl]
+		if !oka {
+			va = in.loadLeaf(cl)
+		}
+		if !okb {
+			vb = in.loadLeaf(cl)
+		}
+		mv, ok := in.mergeValues(c, va, vb, a.log, b.log)
+		if !ok {
+			panic(mergeFail{"unmergeable memory cell"})
+		}
+		upds = append(upds, upd{cl, mv})
+	}
+	if join == nil {
+		rv, ok := in.mergeValues(c, a.ret, b.ret, a.log, b.log)
+		if !ok {
+			panic(mergeFail{"unmergeable return value"})
+		}
+		for _, u := range upds {
+			in.storeLeaf(u.c, u.v)
+		}
+		in.merges++
+		in.mergeDepth--
+		in.doReturn(g, fr, rv)
+		in.mergeDepth++
+		return true
+	}
+	// merge SSA bindings that were (re)defined inside the region (loops re-entering
+	// dominating blocks): bindings present on both sides with different values are ite-merged.
+	menv := b.env
+	for k, va := range a.env {
+		if _, ok := b.env[k]; !ok {
+			menv[k] = va
+		}
+	}
+	if join != nil {
+		for k := range liveIn(fn)[join.Index] {
+			va, oka := a.env[k]
+			vb, okb := b.env[k]
+			if !oka || !okb || va == vb {
+				continue
+			}
+			mv, ok := in.mergeValues(c, va, vb, a.log, b.log)
+			if !ok {
+				panic(mergeFail{"unmergeable live SSA binding " + k.Name() + " " + describe(va) + " / " + describe(vb)})
+			}
+			menv[k] = mv
+		}
+	}
+	fr.env = menv
+	var pv []Value
+	for i := range phis {
+		mv, ok := in.mergeValues(c, a.phis[i], b.phis[i], a.log, b.log)
+		if !ok {
+			panic(mergeFail{"unmergeable phi"})
+		}
+		pv = append(pv, mv)
+	}
+	for _, u := range upds {
+		in.storeLeaf(u.c, u.v)
+	}
+	for i, p := range phis {
+		fr.env[p] = pv[i]
+	}
+	// fr is now positioned at join after phis (from side b)
+	in.merges++
+	return true
+}
+
+// arrived is a hook to distinguish "jumped to join" from the initial state; since the region
+// starts by jumping away from the If block, being in join at pc==len(phis) means arrival.
+func (in *Interp) arrived(fr *Frame, join *ssa.BasicBlock) bool { return true }
+
+// mergeValues builds ite(c, a, b) for values of identical shape.
+func (in *Interp) mergeValues(c *Term, a, b Value, la, lb map[*Cell]Value) (Value, bool) {
+	if a == nil && b == nil {
+		return nil, true
+	}
+	switch x := a.(type) {
+	case *Term:
+		y, ok := b.(*Term)
+		if !ok || x.W != y.W {
+			return nil, false
+		}
+		return Ite(c, x, y), true
+	case *StrV:
+		y, ok := b.(*StrV)
+		if !ok || len(x.B) != len(y.B) {
+			return nil, false
+		}
+		r := &StrV{B: make([]*Term, len(x.B))}
+		for i := range x.B {
+			r.B[i] = Ite(c, x.B[i], y.B[i])
+		}
+		return r, true
+	case *PtrV:
+		y, ok := b.(*PtrV)
+		if !ok || x.C != y.C {
+			return nil, false
+		}
+		return x, true
+	case *SliceV:
+		y, ok := b.(*SliceV)
+		if !ok {
+			return nil, false
+		}
+		if x.Nil && y.Nil {
+			return x, true
+		}
+		if x.Nil != y.Nil || x.Len != y.Len {
+			return nil, false
+		}
+		if x.Len == 0 && x.Cap() == 0 && y.Cap() == 0 {
+			return x, true
+		}
+		if x.Cap() > 0 && y.Cap() > 0 && x.Cells[0] == y.Cells[0] && x.Cap() == y.Cap() {
+			return x, true
+		}
+		// different backing stores: read-only merged view
+		cells := make([]*Cell, x.Len)
+		for i := 0; i < x.Len; i++ {
+			if x.Cells[i].Kids != nil {
+				return nil, false
+			}
+			va, oka := la[x.Cells[i]]
+			if !oka {
+				va = in.loadLeaf(x.Cells[i])
+			}
+			vb, okb := lb[y.Cells[i]]
+			if !okb {
+				vb = in.loadLeaf(y.Cells[i])
+			}
+			mv, ok := in.mergeValues(c, va, vb, la, lb)
+			if !ok {
+				return nil, false
+			}
+			cells[i] = &Cell{T: x.Cells[i].T, V: mv, Frozen: true}
+		}
+		return &SliceV{Cells: cells, Len: x.Len, Frozen: true}, true
+	case *StructV:
+		y, ok := b.(*StructV)
+		if !ok || len(x.F) != len(y.F) {
+			return nil, false
+		}
+		r := &StructV{F: make([]Value, len(x.F))}
+		for i := range x.F {
+			v, ok := in.mergeValues(c, x.F[i], y.F[i], la, lb)
+			if !ok {
+				return nil, false
+			}
+			r.F[i] = v
+		}
+		return r, true
+	case *ArrayV:
+		y, ok := b.(*ArrayV)
+		if !ok || len(x.E) != len(y.E) {
+			return nil, false
+		}
+		r := &ArrayV{E: make([]Value, len(x.E))}
+		for i := range x.E {
+			v, ok := in.mergeValues(c, x.E[i], y.E[i], la, lb)
+			if !ok {
+				return nil, false
+			}
+			r.E[i] = v
+		}
+		return r, true
+	case *TupleV:
+		y, ok := b.(*TupleV)
+		if !ok || len(x.E) != len(y.E) {
+			return nil, false
+		}
+		r := &TupleV{E: make([]Value, len(x.E))}
+		for i := range x.E {
+			v, ok := in.mergeValues(c, x.E[i], y.E[i], la, lb)
+			if !ok {
+				return nil, false
+			}
+			r.E[i] = v
+		}
+		return r, true
+	case *IfaceV:
+		y, ok := b.(*IfaceV)
+		if !ok {
+			return nil, false
+		}
+		if x.T == nil && y.T == nil {
+			return x, true
+		}
+		if x.T == nil || y.T == nil || !types.Identical(x.T, y.T) {
+			return nil, false
+		}
+		v, ok := in.mergeValues(c, x.V, y.V, la, lb)
+		if !ok {
+			return nil, false
+		}
+		return &IfaceV{T: x.T, V: v}, true
+	case *FuncV:
+		y, ok := b.(*FuncV)
+		if ok && (x == y || (isNilFunc(x) && isNilFunc(y))) {
+			return x, true
+		}
+		return nil, false
+	case *MapV:
+		y, ok := b.(*MapV)
+		if ok && x.M == y.M {
+			return x, true
+		}
+		return nil, false
+	case *ChanV:
+		y, ok := b.(*ChanV)
+		if ok && x.C == y.C {
+			return x, true
+		}
+		return nil, false
+	case *NativeV:
+		y, ok := b.(*NativeV)
+		if ok && x.X == y.X {
+			return x, true
+		}
+		return nil, false
+	}
+	return nil, false
+}
+
+var liveCache sync.Map // *ssa.Function -> []map[ssa.Value]bool (live-in per block, excluding the block's own phis)
+
+func liveIn(fn *ssa.Function) []map[ssa.Value]bool {
+	if v, ok := liveCache.Load(fn); ok {
+		return v.([]map[ssa.Value]bool)
+	}
+	n := len(fn.Blocks)
+	in_ := make([]map[ssa.Value]bool, n)
+	out := make([]map[ssa.Value]bool, n)
+	for i := range in_ {
+		in_[i] = map[ssa.Value]bool{}
+		out[i] = map[ssa.Value]bool{}
+	}
+	isInstrVal := func(v ssa.Value) bool {
+		if v == nil {
+			return false
+		}
+		_, ok := v.(ssa.Instruction)
+		return ok
+	}
+	changed := true
+	for changed {
+		changed = false
+		for bi := n - 1; bi >= 0; bi-- {
+			b := fn.Blocks[bi]
+			o := out[bi]
+			for _, s := range b.Succs {
+				for v := range in_[s.Index] {
+					if !o[v] {
+						o[v] = true
+						changed = true
+					}
+				}
+				// phi operands coming from b
+				pi := -1
+				for k, p := range s.Preds {
+					if p == b {
+						pi = k
+					}
+				}
+				for _, ins := range s.Instrs {
+					ph, ok := ins.(*ssa.Phi)
+					if !ok {
+						break
+					}
+					if pi >= 0 && isInstrVal(ph.Edges[pi]) && !o[ph.Edges[pi]] {
+						o[ph.Edges[pi]] = true
+						changed = true
+					}
+				}
+			}
+			live := map[ssa.Value]bool{}
+			for v := range o {
+				live[v] = true
+			}
+			for k := len(b.Instrs) - 1; k >= 0; k-- {
+				ins := b.Instrs[k]
+				if v, ok := ins.(ssa.Value); ok {
+					delete(live, v)
+				}
+				if _, isPhi := ins.(*ssa.Phi); isPhi {
+					continue
+				}
+				var ops []*ssa.Value
+				for _, op := range ins.Operands(ops) {
+					if isInstrVal(*op) {
+						live[*op] = true
+					}
+				}
+			}
+			for v := range live {
+				if !in_[bi][v] {
+					in_[bi][v] = true
+					changed = true
+				}
+			}
+		}
+	}
+	liveCache.Store(fn, in_)
+	return in_
 }
